@@ -168,14 +168,18 @@ Definition get_line_offset : M N :=
                match find_prev before_tail (ps_pos s - 2) (ps_kept s) with
                | None => (RPanic "parser.rs: get_line_offset: tokens[prev_pos]", s)
                | Some (prev, prev_pos) =>
-                   let prev_line :=
-                     if ttype_eqb (tk_type prev) TComment && negb (opt_nat_eqb (ps_kept s) prev_pos) then 1
-                     else if opt_nat_eqb (ps_kept s) prev_pos then tk_line prev + count_newlines (tk_text prev)
-                     else tk_line prev in
-                   if Nat.eqb (tk_fileid prev) (tk_fileid cur) then
-                     if prev_line <=? tk_line cur then (ROk (tk_line cur - prev_line), s)
-                     else (RPanic "parser.rs: get_line_offset: cur_line - prev_line", s)
-                   else (ROk 2, s)
+                   if ttype_eqb (tk_type prev) TComment && negb (opt_nat_eqb (ps_kept s) prev_pos) then
+                     (* only comments that are not stored stand in front: this is the first token that is written *)
+                     if 1 <=? tk_line cur then (ROk (tk_line cur - 1), s)
+                     else (RPanic "parser.rs: get_line_offset: cur_line - 1", s)
+                   else
+                     let prev_line :=
+                       if opt_nat_eqb (ps_kept s) prev_pos then tk_line prev + count_newlines (tk_text prev)
+                       else tk_line prev in
+                     if Nat.eqb (tk_fileid prev) (tk_fileid cur) then
+                       if prev_line <=? tk_line cur then (ROk (tk_line cur - prev_line), s)
+                       else (RPanic "parser.rs: get_line_offset: cur_line - prev_line", s)
+                     else (ROk 2, s)
                end
            | _, _ =>
                match ps_first_line s with
